@@ -101,6 +101,11 @@ class LoopGen:
                 nm = self.fresh("s")
                 size = [self.idx_value(out, scope, ivs) if r.random() < 0.6 else None for _ in range(2)]
                 off = [r.choice(ivs + ["%c0", None, None]) for _ in range(2)]  # None = static offset 0
+                for x in size:
+                    # a size that is a memref.dim may have a further user that keeps it inside the loop
+                    if x is not None and x.startswith("%d") and r.random() < 0.4:
+                        self.tag += 1
+                        out.append({"k": "op", "tag": self.tag, "args": [x]})
                 out.append({"k": "subview", "name": nm, "src": "%arg0", "off": off, "size": size})
                 if r.random() < 0.5:
                     self.tag += 1
